@@ -494,11 +494,17 @@ def F4_adapter(ctx, rule, b):
             for sb, vals in guards_of(ab, dbb):
                 de = switch_expr(ab, sb)
                 if de.kind == "discr":
-                    srcs = sources_of_expr(ctx, ab, strip_refs(de[1]))
-                    if any(s.kind in ("userfut",) for s in srcs) or True:
-                        vs = [v for v in vals if v != "otherwise"]
-                        if len(vs) == 1 and len(vals) == 1:
-                            arm = int(vs[0])
+                    dd = get_defs(ab).unique_full(ab.blocks[sb]["term"]["discr"].get("pl", {}).get("l", -1))
+                    if not (dd and dd[0] == "stmt" and dd[3]["rv"]["k"] == "discr" and dd[3]["rv"]["pl"]["ty"].startswith("std::ops::ControlFlow")):
+                        continue        # e.g. the Ready/Pending test of the await
+                    vs = [v for v in vals if v != "otherwise"]
+                    if len(vs) == 1 and len(vals) == 1:
+                        arm = int(vs[0])
+                    elif vals == frozenset(["otherwise"]):
+                        listed = [v for v, _ in ab.blocks[sb]["term"]["targets"]]
+                        rest = [v for v in ("0", "1") if v not in listed]      # ControlFlow: Continue = 0, Break = 1
+                        if len(rest) == 1:
+                            arm = int(rest[0])
             if x["rv"]["variant"] == "Ok":
                 oks.append(arm)
             else:
